@@ -104,7 +104,11 @@ def tap_params(draw, p, sides=("hv", "lv")):
     elif tt == "Symmetrical":
         d["tap_step_percent"] = draw(q(0.5, 2.5, nd=2))
     elif tt == "Ideal":
-        d["tap_step_degree"] = draw(q(0.2, 2.0, nd=2))
+        # an ideal phase shifter is parameterised by an angle per step or by a voltage step (angle = 2*asin(n*du/2))
+        if draw(st.booleans()):
+            d["tap_step_degree"] = draw(q(0.2, 2.0, nd=2))
+        else:
+            d["tap_step_percent"] = draw(q(0.5, 2.5, nd=2))
     return d
 
 
